@@ -13,6 +13,15 @@ PROP = {'rule': 'rapid-generated cases. takeCPUs: (topology sockets1-2 x numa1-2
          'hint over reusable CPUs that are not core-aligned, or a preemption dry run (victims = live pods, restored CPUs / NUMA amounts '
          'read back through GetAllocatedCPUSet / GetAllocatedNUMAResource as preempt.go does, request at/around what the hinted nodes '
          'have free for this pod) with a victim whose NUMA node list is not {0..k}. '
+         'pluginHistory: rapid state machine over the REAL Plugin (one instance from the package\'s newPluginTestSuit, fresh '
+         'resourceManager / TopologyOptionsManager per case) and the real podEventHandler: schedule (PreFilter, RestoreReservation with '
+         'any matched/unmatched split of the live reservations, Filter incl. NUMA topology manager admit, nominate, Reserve; LSR cpuset '
+         'pods and NUMA-only pods, requests at/around what a NUMA node has free for the pod), scheduleDesignated (scheduling hint + '
+         'resource-status annotation; mostly consistent with the cluster, 1/8 with a held CPU), scheduleReservation (NUMA-only reserve '
+         'pod), unreserve, bind (PreBind + informer update), status-only pod update, informer add of an existing annotated pod, pod '
+         'delete / terminated, NodeResourceTopology deleted / reported again; non-trivial = >=3 operations with a reserved designated '
+         'allocation, a bind, a cycle with matched AND unmatched reservations, or a pod whose events were dropped without topology and '
+         'that a later status-only update recorded. '
          'concurrentFirstTouch: one generated script set (2-8 goroutines x 1-3 ops of record / record+release / release-unknown / read, '
          'pairwise disjoint allocations) replayed behind a barrier on 100 (thorough 300) fresh nodes of a fresh resourceManager, oracle at '
          'quiescence; non-trivial = >=2 goroutines whose first operation records a pod. '
@@ -26,6 +35,12 @@ PROP = {'rule': 'rapid-generated cases. takeCPUs: (topology sockets1-2 x numa1-2
                  'the model only once it was recorded; a recorded pod stays live across an NRT delete/re-create and leaves the model when '
                  'Release is called, whether or not a topology is known at that moment (pod delete events / Unreserve are not guarded)',
                  'the topology reported again after a delete is the same one (same MaxRefCount, reserved CPUs, NUMA resources)',
+                 'plugin unit: sharing limit 1, no node-reserved CPUs, NUMA policy from the NRT (fixed per case); reservations are NUMA-only '
+                 'and allocate-once (consumed and removed in the same step in which a pod is allocated with them); while pods exist whose '
+                 'events were all dropped (no topology), or no topology is known, only informer events are generated, no scheduling cycles; '
+                 '"free for this pod" on a NUMA node = capacity minus what the other live pods and every reservation the pod is not '
+                 'allocated from hold there; NUMA exactness is not asserted for allocations from a Restricted reservation (resources the '
+                 'reservation does not hold are not NUMA-allocated by koordinator)',
                  'concurrent unit: pods are recorded with Update() from pre-built disjoint allocations (what the pod informer does from the '
                  'pod annotations after a restart); every pod is touched by one goroutine only, so the state at quiescence is schedule '
                  'independent; detection of a lost update is probabilistic, the verdict on correct code is not; run without -race',
@@ -38,7 +53,7 @@ PROP = {'rule': 'rapid-generated cases. takeCPUs: (topology sockets1-2 x numa1-2
                       {'run': 'TestVerifC06NUMASplit', 'quick': 20000, 'thorough': 200000},
                       {'run': 'TestVerifC06ManagerHistory', 'quick': 3000, 'thorough': 25000, 'steps': 25},
                       {'run': 'TestVerifC06ManagerHistoryExt', 'quick': 3000, 'thorough': 25000, 'steps': 25},
-                      {'run': 'TestVerifC06PluginHistory', 'quick': 1500, 'thorough': 8000, 'steps': 20},
+                      {'run': 'TestVerifC06PluginHistory', 'quick': 2500, 'thorough': 8000, 'steps': 20},
                       {'run': 'TestVerifC06ConcurrentFirstTouch', 'quick': 150, 'thorough': 300, 'shards': 2, 'shrinktime': '0s'},
                       {'run': 'FuzzVerifC06NUMASplit', 'fuzz': True, 'rapid': False, 'thorough_only': True, 'fuzztime': '40s'},
                       {'run': 'FuzzVerifC06TakeCPUs', 'fuzz': True, 'rapid': False, 'thorough_only': True, 'fuzztime': '40s'}]}],
@@ -53,6 +68,8 @@ PROP = {'rule': 'rapid-generated cases. takeCPUs: (topology sockets1-2 x numa1-2
                       'is re-verified independently, preemption dry runs whose restored amounts come from the manager\'s own getters and '
                       'are judged against the model (nothing beyond what is free for this pod per NUMA node; divisible requests that fit '
                       'succeed), and a concurrent unit in which several goroutines touch fresh nodes for the first time together and the '
-                      'ledger is compared with the sum of the live pods after they were joined. Exploration, not proof: absence of violations over the sampled cases.',
+                      'ledger is compared with the sum of the live pods after they were joined; finally the same model is held against '
+                      'the real Plugin and pod event handler (scheduling cycles with reservations and designated allocations, binding, '
+                      'informer events, topology loss). Exploration, not proof: absence of violations over the sampled cases.',
               'note': "regular topologies; allocations enter the ledger only via Allocate+Update; rapid's PRNG and shrinker; Go map "
                       'iteration inside koordinator is not controlled'}}
